@@ -369,10 +369,11 @@ def request(R):
     R.ob('C10.request', 'CRLF CRLF terminator', okt, 'the request does not provably end with an empty line', func=f,
          node=None, construct='request terminator')
     # custom headers included
-    okc = any(isinstance(n.ast, ast.Assign) and U(n.ast.value) in ('self._headers[:]', 'list(self._headers)')
+    okc = any(isinstance(n.ast, ast.Assign) and U(n.ast.value) in ('self._headers[:]', 'list(self._headers)', 'self._headers.copy()')
               for n in g.live_nodes() if n.kind == 'stmt')
-    R.ob('C10.request', 'custom headers included', okc, 'self._headers is not copied into the request', func=f, node=None,
-         construct='custom headers')
+    R.ob('C10.request', 'custom headers included (copied, so the request headers are not appended to the persistent list)',
+         okc, 'self._headers is not copied into the request: the standard headers (and the key) of every attempt '
+         'accumulate and are re-sent on the next attempt', func=f, node=None, construct='custom headers')
     # sent once per run
     gr = R.cfg('session.WebsocketSession.run')
     sr = calls_to(R, gr, 'session.WebsocketSession._send_request')
@@ -385,7 +386,22 @@ def request(R):
         R.types.resolves_to(w[0][1].args[0], gs.ctx, q)
     R.ob('C10.request', '_send_request writes build_request()', okw, '_send_request body', func='session.WebsocketSession._send_request',
          node=None, construct='_send_request')
-    # URL pieces
+    # URL pieces: resource = (path or '/') [+ '?' + query]
+    gi = R.cfg(WS + '.__init__')
+    rdi = ReachingDefs(gi)
+    rs = [n for n in gi.live_nodes() if n.kind == 'stmt' and isinstance(n.ast, ast.Assign) and U(n.ast.targets[0]) == 'self.resource']
+    base = [n for n in rs if U(n.ast.value) in ("_url.path or '/'",)]
+    withq = [n for n in rs if n not in base]
+    okq = len(base) == 1 and len(withq) <= 1
+    for n in withq:
+        v = n.ast.value
+        okq = okq and isinstance(v, ast.Call) and U(v.func) == "'{}?{}'.format" and len(v.args) == 2 \
+            and U(v.args[0]) == 'self.resource' and U(v.args[1]) == '_url.query' \
+            and ('_url.query', True) in {(t, p) for (t, p, _) in guards_of(gi, n)} \
+            and all_paths_pass(gi, [gi.entry], base, [n], skip_edge=nx)
+    R.ob('C10.request', 'resource = (path or "/") plus the optional query', okq,
+         'self.resource is built as %s' % [U(n.ast.value) for n in rs], func=init, node=(withq[0].ast if withq else None),
+         construct='resource construction')
     port = [s for s in own_nodes(init.node) if isinstance(s, ast.Assign) and U(s.targets[0]) == 'self.port']
     okp = len(port) == 1 and isinstance(port[0].value, ast.IfExp) and U(port[0].value.test) == '_url.port' \
         and isinstance(port[0].value.orelse, ast.IfExp) and fold(R, port[0].value.orelse.body, None) == 443 \
@@ -494,6 +510,17 @@ def headers(R):
             low = True
     R.ob('C10.headers', 'names lower-cased at insert', low, 'header names are not lower-cased when stored', func=f, node=None,
          construct='Response header insert')
+    # header bytes are never silently dropped when decoding (a corrupted digest must not compare equal)
+    bad = []
+    for c in own_nodes(f.node):
+        if isinstance(c, ast.Call) and isinstance(c.func, ast.Attribute) and c.func.attr == 'decode':
+            errs = [k.value for k in c.keywords if k.arg == 'errors'] + list(c.args[1:2])
+            for e in errs:
+                if isinstance(e, ast.Constant) and e.value == 'ignore':
+                    bad.append(c)
+    R.ob('C10.headers', 'undecodable header bytes are not dropped', not bad,
+         'Response decodes header bytes with errors="ignore": bytes >= 0x80 inserted into a header value vanish, so a '
+         'wrong Sec-WebSocket-Accept can compare equal', func=f, node=(bad[0] if bad else None), construct='header decode errors=ignore')
     q2 = 'response.Response.get'
     f2 = R.func(q2)
     rets = [s for s in own_nodes(f2.node) if isinstance(s, ast.Return)]
